@@ -136,6 +136,12 @@ def block_names(rng, g):
         "[1, 2] {let %s := %s; {|A| A %s}} apply apply" % (w, a, w),
         "[1, 2] %s {|A %s| A %s}  apply" % (b, w, w),
         "[5] {|A| A %s} apply" % w,                          # control: the word itself inside a block
+        # a binding block with an empty body is a scope all the same
+        "%s (|A|) A" % a,
+        "let A := %s; 9 (|X| %s (|A|) A)" % (a, b),
+        "[1 2 (|A|) (|A|) 3]",
+        "%s %s (|A|) (|B|) A" % (a, b),
+        "let A := %s; %s (|A|) A" % (a, b),
         # the assertion blocks `?{ … }` / `!{ … }`: a scope of their own, in both polarities
         "let A := %s; 5 !{let A := %s; A 0 ?eq} apply A" % (a, b),
         "let A := %s; 5 ?{let A := %s; A %s ?eq} apply A" % (a, b, b),
